@@ -331,6 +331,15 @@ fn run(case: &Value) -> Value {
             Err(EvmError::ExcessiveValue) => json!({"code": 4, "v": "0"}),
             Err(e) => json!({"code": 9, "v": "0", "err": format!("{e:?}")}),
         },
+        // formatter -> parser over the whole 256-bit domain: Display, then FromStr
+        "amount_roundtrip" => {
+            let a = AttoTokens::from_atto(ant_evm::Amount::from_str_radix(case["a"].as_str().unwrap(), 10).unwrap());
+            let s = format!("{a}");
+            match AttoTokens::from_str(&s) {
+                Ok(b) => json!({"s": s, "code": 0, "v": b.as_atto().to_string()}),
+                Err(e) => json!({"s": s, "code": 9, "v": "0", "err": format!("{e:?}")}),
+            }
+        }
         // ------------------------------------------------------------------ multiaddresses
         "craft_from_str" => {
             let s = input_string(case);
